@@ -1,10 +1,12 @@
 """C12 Verify accepts exactly what decrypt accepts; writes nothing; inputs stay intact."""
 from .common import combined
 LEVEL = 'other'
-RULES = ('R12.a', 'R12.b', 'R12.c', 'R12.d', 'R12.e', 'R12.f', 'R12.g', 'R02.f', 'R04.g', 'R11.a', 'R01.j', 'R04.f')
+RULES = ('R12.a', 'R12.b', 'R12.c', 'R12.d', 'R12.e', 'R12.f', 'R12.g', 'R02.f', 'R04.g', 'R11.a', 'R01.j', 'R04.f', 'R01.u')
 
 
 def run(prog, rec, tier):
+    from . import static_rules as _sr
+    _sr.unsequenced(prog, rec, 'R01.u', 'R01.u@kernel::evaluation-order', ('kernel', 'main.cpp', 'valget'))
     from . import cli_rules
     C = cli_rules.CliRules(prog, rec)
     C.parser()
